@@ -483,6 +483,32 @@ impl SATSolver {
     }
 }
 
+#[cfg(feature = "verif_hooks")]
+impl SATSolver {
+    /// `(watch_list_pos, watch_list_neg)` of the propagator, read-only
+    pub fn verif_watch_lists(&self) -> (Vec<Vec<usize>>, Vec<Vec<usize>>) {
+        (
+            self.up.watch_list_pos.clone(),
+            self.up.watch_list_neg.clone(),
+        )
+    }
+
+    /// the value of `var` in the current top state
+    pub fn verif_get(&self, var: VarLabel) -> Option<bool> {
+        self.top_state().model.get(var)
+    }
+
+    /// number of states on the stack
+    pub fn verif_depth(&self) -> usize {
+        self.state_stack.len()
+    }
+
+    /// the normalised, prime-weighted clauses the hash is computed over
+    pub fn verif_weighted_clauses(&self) -> Vec<Vec<(Literal, u128)>> {
+        self.clauses.clone()
+    }
+}
+
 #[test]
 fn test_unit_propagate_1() {
     let v = vec![
